@@ -1651,10 +1651,7 @@ void x509FreeExtensions(x509v3extensions_t *extensions)
         {
             inc = active->next;
             psFree(active->data, extensions->pool);
-            if (active->oidLen > 0)
-            {
-                psFree(active->oid, extensions->pool);
-            }
+            psFree(active->oid, extensions->pool);
             psFree(active, extensions->pool);
             active = inc;
         }
@@ -1667,10 +1664,7 @@ void x509FreeExtensions(x509v3extensions_t *extensions)
         {
             inc = active->next;
             psFree(active->data, extensions->pool);
-            if (active->oidLen > 0)
-            {
-                psFree(active->oid, extensions->pool);
-            }
+            psFree(active->oid, extensions->pool);
             psFree(active, extensions->pool);
             active = inc;
         }
@@ -1702,6 +1696,7 @@ void x509FreeExtensions(x509v3extensions_t *extensions)
         {
             inc = active->next;
             psFree(active->data, extensions->pool);
+            psFree(active->oid, extensions->pool);
             psFree(active, extensions->pool);
             active = inc;
         }
@@ -1716,6 +1711,7 @@ void x509FreeExtensions(x509v3extensions_t *extensions)
         {
             inc = active->next;
             psFree(active->data, extensions->pool);
+            psFree(active->oid, extensions->pool);
             psFree(active, extensions->pool);
             active = inc;
         }
